@@ -80,10 +80,14 @@ def run_chain(rp, before, after, pmgr_cbs, final_state='FAILED'):
     pilot.attach_tmgr = lambda t: setattr(pilot, '_tmgr', t)
     pilot.as_dict = lambda: dict(pilot._pilot_dict)
     called, keep = [], []
-    def mk(i, raises):
+    def mk(i, raises, owner=None):
         def cb(*a):
             called.append(i)
-            if raises: raise RuntimeError('application callback %d' % i)
+            if raises == 'oneshot':
+                # a one-shot callback: it takes itself out of the registry once it saw what it waited for (legal:
+                # the callback locks are re-entrant); it does not raise
+                (owner or pilot).unregister_callback(cb)
+            elif raises: raise RuntimeError('application callback %d' % i)
         keep.append(cb)                 # ids of callbacks are their memory addresses: keep them alive
         return cb
     for i, r in before: pilot.register_callback(mk(i, r))
@@ -94,7 +98,7 @@ def run_chain(rp, before, after, pmgr_cbs, final_state='FAILED'):
     tm._pilot_state_cb = tm_cb
     tm.add_pilots(pilot)
     for i, r in after: pilot.register_callback(mk(i, r))
-    for i, r in pmgr_cbs: pm.register_callback(mk(i, r))
+    for i, r in pmgr_cbs: pm.register_callback(mk(i, r, pm))
     task = stubs.make_task(rp, tm, 'task.000000', 'AGENT_EXECUTING', pilot='pilot.0000')
     try:
         pilot._update({'uid': 'pilot.0000', 'state': final_state})
@@ -190,19 +194,21 @@ def added_part(ctx, rp):
 def chain_part(ctx, rp):
     rng = ctx.rng
     ops, impl = [], []
-    cases = [([], [], [(7, True)]), ([(3, False)], [(4, True)], [(7, False)]), ([(3, True)], [], [])]
+    cases = [([], [], [(7, True)]), ([(3, False)], [(4, True)], [(7, False)]), ([(3, True)], [], []),
+             ([(3, 'oneshot')], [], []), ([], [(4, 'oneshot')], [(7, 'oneshot'), (8, False)])]
     for _ in range(ctx.n(150, 4000)):
         ids = iter(range(1, 20))
-        mk = lambda n: [(next(ids), rng.random() < 0.3) for _ in range(n)]
+        mk = lambda n: [(next(ids), rng.choice([False, False, False, True, 'oneshot', 'oneshot'])) for _ in range(n)]
         cases.append((mk(rng.choice([0, 0, 1, 2])), mk(rng.choice([0, 1, 2])), mk(rng.choice([0, 1, 2, 3]))))
     for before, after, pm in cases:
         called, tstate = run_chain(rp, before, after, pm)
-        op = {'op': 'cbchain', 'pilot': [{'id': i, 'raises': r} for i, r in before] + [{'id': 0, 'raises': False}]
-                                      + [{'id': i, 'raises': r} for i, r in after],
-              'pmgr': [{'id': i, 'raises': r} for i, r in pm]}
+        # a one-shot callback does not raise: for the chain it is a callback like any other
+        op = {'op': 'cbchain', 'pilot': [{'id': i, 'raises': r is True} for i, r in before] + [{'id': 0, 'raises': False}]
+                                      + [{'id': i, 'raises': r is True} for i, r in after],
+              'pmgr': [{'id': i, 'raises': r is True} for i, r in pm]}
         ops.append(op); impl.append(called)
         ctx.case(op, nontrivial=any(r for _, r in pm + after))
-        if not any(r for _, r in before) and (0 not in called or tstate != 'FAILED'):
+        if not any(r is True for _, r in before) and (0 not in called or tstate != 'FAILED'):
             ctx.fail('callbacks:dead-pilot-keeps-its-tasks',
                      'no callback registered on the pilot before the task manager raises, yet the task manager was %s '
                      'and the task of the dead pilot is %s (callbacks called: %s)' % ('called' if 0 in called else 'not called', tstate, called),
@@ -333,7 +339,7 @@ def replay(ctx, data):
         c = inp['chain']
         called, tstate = run_chain(rp, [tuple(x) for x in c['before']], [tuple(x) for x in c['after']], [tuple(x) for x in c['pmgr']])
         print('observed: called', called, 'task', tstate)
-        return any(r for _, r in c['before']) or (0 in called and tstate == 'FAILED')
+        return any(r is True for _, r in c['before']) or (0 in called and tstate == 'FAILED')
     out, pubs, err = run_case(rp, inp['tasks'], [[tuple(x) for x in c] for c in inp['calls']])
     bad = monitor(rp, inp['tasks'], inp['calls'], out, err)
     print('observed:', out, err, bad)
